@@ -217,9 +217,35 @@ def work(t):
         n_unknown += 1
     else:
       n_unknown += 1
+  replay_note = ''
+  if not found and n_unknown:
+    # undecided paths: model-free replay of the real function on a fixed battery of score vectors within the task's bounds
+    # (small integers, powers of two, ties, zeros, near-ties); a reproduced violation is reported, otherwise the paths stay undecided
+    rng = np.random.RandomState(17)
+    nv = len(names)
+    tried = 0
+    for k in range(300):
+      if k % 3 == 0:
+        v = rng.randint(0, 6, size=nv).astype(np.float32)
+      elif k % 3 == 1:
+        v = (np.float32(2.0) ** rng.randint(-6, 7, size=nv)).astype(np.float32)
+      else:
+        v = np.float32(2.0) ** rng.uniform(-12, 12, size=nv).astype(np.float32)
+      if k % 5 == 0 and nv > 1:
+        v[rng.randint(nv)] = v[0]
+      scores = [float(x) for x in v]
+      if pattern:
+        scores = [0.0 if q == 'z' else scores[q] for q in pattern]
+      tried += 1
+      what = real_run(scores, layers, rank)
+      if what:
+        key = 'C17:over-allocation' if 'sum to' in what else ('C17:exception:' + what.split('raises ')[1].split(':')[0] if 'raises' in what else 'C17:rank-range')
+        found.setdefault(key, (what, scores))
+        break
+    replay_note = f'; {n_unknown} undecided path(s): model-free replay of {tried} score vectors ' + ('reproduced a violation' if found else 'found nothing')
   status = 'unsat'
   n_abs = sum(1 for o in outs if o.get('stage') == 'abstract')
-  note = f'{len(paths)} paths explored, {n_unsat} discharged ({n_abs} already with float arithmetic abstracted), {n_unknown} undecided'
+  note = f'{len(paths)} paths explored, {n_unsat} discharged ({n_abs} already with float arithmetic abstracted), {n_unknown} undecided' + replay_note
   for key, (what, scores) in found.items():
     path = write_replay(PID, dict(property=PID, scores=scores, layers=layers, rank=rank, observed=what))
     viol.append(dict(key=key, what=what, replay=path))
